@@ -6,11 +6,21 @@ Driver for E9 (C13).  One record = one keep-alive scenario under virtual time.
 op tokens:
   `ka  I=<interval ns> T=<configured threshold> script=<s1,s2,…|-> cancel=<instant ns>`   scripted keepaliveSession
   `kas side=<client|server> I=… T=… script=… cancel=…`                                    real session, scripted peer
+  `kss side=<c|s> I=… T=… script=<observed outcomes> cancel=<first Close call> at=<s1|->,<s2> scn=…`
+        stream `sessions`: a real client/server pair over faulting transports.  `script` lists, per tick,
+        the result the session's Ping actually had (`a<d>` nil after d · `m<d>` method-not-found ·
+        `e<d>` another error) or `x` (no ping was attempted on that tick); `cancel` is the instant (own
+        time of that side) at which the session's Close was first called from outside the loop; `at`
+        are the instants at which the existence of the keep-alive goroutine was sampled; `scn` (the
+        scenario, for the harness's replay) is ignored here.
   script element: `a<d>` answer after d ns · `m<d>` method-not-found after d · `e<d>` other error after d ·
                   `n` never reacts.  Further tokens are ignored.
 observation:
   `pings=<instants|-> to=<ping deadline ns | - | mixed> close=<instants of Close|-> exit=<0|1> late=<n>`
   (`to`, `exit`, `late` are `-`/`1`/`0` for `kas`, where they cannot be observed from the peer).
+  `kss` adds ` warn=<instants of the tolerated-miss log records|-> shut=<instant the transport connection was closed|->
+  live=<a1|-><a2>` (goroutine present at s1 / s2); `close` = instants of the "closing session" log record.
+  `shut` depends on the peer and the transport, not on the loop: the model line copies it, the monitor checks it.
 
 The model line is `KeepAlive.runCancel` rendered.  The monitor is the property itself: literal
 `I/2`, literal `max 1`, the closing tick found by searching for the first window of `T` consecutive
@@ -24,6 +34,7 @@ def kv (toks : List String) (k : String) : Option String :=
 
 def parseScript (s : String) : Option Script :=
   if s == "n" then some { kind := .answer, delay := none }
+  else if s == "x" then some { kind := .answer, delay := some 0 }  -- nothing observed: a running loop had to ping
   else
     let d := ((s.drop 1).toString).toNat?
     match s.front, d with
@@ -46,6 +57,9 @@ structure Scenario where
   t0 : Int
   scripts : List Script
   tc : Nat
+  sess : Bool := false
+  at1 : Option Nat := none
+  at2 : Nat := 0
 
 def parseScenario (real : Bool) (toks : List String) : Option Scenario := do
   let I ← (← kv toks "I").toNat?
@@ -55,13 +69,32 @@ def parseScenario (real : Bool) (toks : List String) : Option Scenario := do
   if I == 0 then none else
   return { real := real, I := I, t0 := t0, scripts := scripts, tc := tc }
 
-def modelObs (sc : Scenario) : String :=
+def parseSess (toks : List String) : Option Scenario := do
+  let sc ← parseScenario false toks
+  match (← kv toks "at").splitOn "," with
+  | [a, b] =>
+    let at2 ← b.toNat?
+    let at1 ← if a == "-" then some none else a.toNat?.map some
+    if sc.tc == 0 then none else
+    return { sc with sess := true, at1 := at1, at2 := at2 }
+  | _ => none
+
+def modelObs (sc : Scenario) (impl : String) : String :=
   let s := runCancel sc.I sc.t0 sc.scripts sc.tc
   let close := match s.closeAt with
     | some c => toString c
     | none => "-"
   let to := if sc.real ∨ s.pings.isEmpty then "-" else toString (Generated.KeepAlive.pingTimeout sc.I)
-  s!"pings={showNats s.pings} to={to} close={close} exit=1 late=0"
+  let base := s!"pings={showNats s.pings} to={to} close={close} exit=1 late=0"
+  if sc.sess then
+    let e := endAt sc.I sc.t0 sc.scripts sc.tc
+    let alive (t : Nat) : String := if t < e then "1" else "0"
+    let a1 := match sc.at1 with
+      | some t => alive t
+      | none => "-"
+    let shut := (kv (words impl) "shut").getD "?"
+    s!"{base} warn={showNats (warnsCancel sc.I sc.t0 sc.scripts sc.tc)} shut={shut} live={a1}{alive sc.at2}"
+  else base
 
 /-! ### The property monitor -/
 
@@ -81,6 +114,61 @@ def specCloseTick (T : Nat) (os : List Nat) : Option Nat :=
   | none => none
 
 def trailingFails (os : List Nat) : Nat := (os.reverse.takeWhile (· == 2)).length
+
+/-- How long the property lets one ping last: the scripted delay, at most half an interval. -/
+def specDur (I : Nat) (s : Script) : Nat :=
+  match s.delay with
+  | none => I / 2
+  | some d => if d < I / 2 then d else I / 2
+
+/-- The additional clauses of the stream `sessions` (the property's last sentence): after the
+session's Close was called no ping is sent; nothing is logged and no goroutine is left once
+keep-alive had to end — `due`: at the closing ping's end, at the end of the ping that reported
+method-not-found, or at the Close call / the end of the ping in flight then; while it has not ended
+the goroutine exists; a session that keep-alive reports as closed has its connection closed. -/
+def monitorSess (sc : Scenario) (o : List String) (pings closes : List Nat) (kstar : Option Nat)
+    (os : List Nat) (m : Nat) : Option String :=
+  match (kv o "warn").bind natList, kv o "shut", kv o "live" with
+  | some warn, some shut, some live =>
+    let I := sc.I
+    let tc := sc.tc
+    let endOf (k : Nat) : Nat := if k = 0 then 0 else k * I + ((sc.scripts[k - 1]?).map (specDur I)).getD 0
+    let byCancel : Bool := kstar.isNone ∧ ¬ os.any (· == 1)
+    let due : Nat := if byCancel then max tc (endOf m) else endOf m
+    let why : String :=
+      if byCancel then s!"the session's Close was called at {tc}"
+      else if kstar.isSome then s!"keep-alive closed the session at tick {m}"
+      else s!"the peer reported ping as unsupported at tick {m}"
+    let afterClose : Option String :=
+      match pings.find? (· ≥ tc) with
+      | some p => some s!"silent_stop: keep-alive sent a ping at {p} although the session's Close was called at {tc}; keep-alive ends when the session is closed"
+      | none => none
+    let logged : Option String :=
+      match (warn ++ closes).find? (· > due) with
+      | some w => some s!"silent_stop: keep-alive logged a failed ping at {w}, after it had to end at {due} ({why}); keep-alive ends silently"
+      | none => none
+    let shutc : Option String :=
+      match closes with
+      | c :: _ =>
+        match shut.toNat? with
+        | some sh => if sh ≤ c then none else some s!"closes_iff_T_consecutive: keep-alive reported closing the session at {c} but its connection was only closed at {sh}"
+        | none => some s!"closes_iff_T_consecutive: keep-alive reported closing the session at {c} but its connection was never closed"
+      | [] => none
+    let flag (a : String) (t : Nat) : Option String :=
+      if a == "1" ∧ t ≥ due then
+        some s!"silent_stop: the keep-alive goroutine (and its ticker) still exists at {t} although keep-alive had to end at {due} ({why}); no timer or goroutine may be left behind"
+      else if a == "0" ∧ t < due then
+        some s!"pings_at_ticks: the keep-alive goroutine is gone at {t} although the session is open and keep-alive only ends at {due}"
+      else if a == "0" ∨ a == "1" then none
+      else some s!"bad-observation: live={live}"
+    let chars := live.toList.map (fun c => String.singleton c)
+    let livec : Option String :=
+      match chars, sc.at1 with
+      | [a1, a2], some t1 => flag a1 t1 <|> flag a2 sc.at2
+      | [_, a2], none => flag a2 sc.at2
+      | _, _ => some s!"bad-observation: live={live}"
+    afterClose <|> logged <|> shutc <|> livec
+  | _, _, _ => some "bad-observation: warn/shut/live missing"
 
 def monitor (sc : Scenario) (impl : String) : Option String :=
   let o := words impl
@@ -125,7 +213,15 @@ def monitor (sc : Scenario) (impl : String) : Option String :=
     let quiet : Option String :=
       if exit == "1" ∧ late == "0" then none
       else some "silent_stop: the keep-alive goroutine or its ticker is still active after the loop ended"
-    deadline <|> closing <|> ticks <|> quiet
+    let long : Option String :=
+      if ¬ sc.sess then none else
+      match (sc.scripts.zipIdx).find? (fun (s, _) => match s.delay with | some d => d > I / 2 | none => false) with
+      | some (s, j) => some s!"ping_done_before_next_tick: ping {j + 1} lasted {s.delay.getD 0}, longer than its deadline of half an interval ({I / 2})"
+      | none => none
+    if sc.sess then
+      deadline <|> long <|> (monitorSess sc o pings closes kstar os m).filter (·.startsWith "silent_stop: keep-alive sent")
+        <|> closing <|> ticks <|> monitorSess sc o pings closes kstar os m <|> quiet
+    else deadline <|> closing <|> ticks <|> quiet
   | _, _, _, _, _ => some s!"bad-observation: {impl}"
 
 def engine : Engine Unit where
@@ -137,7 +233,11 @@ def engine : Engine Unit where
       if kind == "ka" ∨ kind == "kas" then
         match parseScenario (kind == "kas") rest with
         | none => ((), { model := "bad-op" })
-        | some sc => ((), { model := modelObs sc, violated := monitor sc impl })
+        | some sc => ((), { model := modelObs sc impl, violated := monitor sc impl })
+      else if kind == "kss" then
+        match parseSess rest with
+        | none => ((), { model := "bad-op" })
+        | some sc => ((), { model := modelObs sc impl, violated := monitor sc impl })
       else ((), { model := "bad-op" })
     | _ => ((), { model := "bad-op" })
 
